@@ -198,7 +198,7 @@ class C04(Check):
             'non-trivial = a call event whose result was compared with a freshly built map')
     technique = ('explicit-state breadth-first search over call/mutation histories on the real ExchangeMap with a '
                  'differential oracle (fresh map built from fresh files) after every transition; de Bruijn histories')
-    level_text = ('every history up to depth 3 (quick; 2 on the three special-purpose pairs) / 4-5 (thorough; 3 on those) over an 18-event alphabet, on 5 reference/target '
+    level_text = ('every history up to depth 3 (quick; 2 on the three special-purpose pairs) / 4-5 (thorough; 3 on those) over an 18-event alphabet (21 on the plain chain pair: plus an argument deformed to a near-degenerate / exactly degenerate anchor frame and a call with a species whose name differs only in letter case), on 5 reference/target '
                   'pairs x 2 ways of producing arguments (sharing the species topology as System does / independently '
                   'loaded), is executed on the real map and checked after every event; histories of length 101 and 1002 '
                   'containing every ordered pair / triple of events cover the long-history clause')
